@@ -107,23 +107,35 @@ theorem direct_modes_role (m : Mode) (hm : m ≠ .webrtc) (n : Nat) :
 
 /-! ### data-channel stream ids -/
 
-/-- **dc_ids_disjoint**: with complementary roles the two ends can never allocate the same stream id,
+/-- **dc_ids_disjoint** — stated for the role *at allocation time* (`dtls_role.borrow().unwrap_or(true)`):
+whenever the two ends allocate with different effective roles they can never pick the same stream id,
 whatever ids are in use on either side. -/
-theorem dc_ids_disjoint (r : Bool) (usedA usedB : List Nat) :
-    dcAlloc (some r) usedA ≠ dcAlloc (some (!r)) usedB := by
-  intro h
-  have ha := dcAllocFrom_parity usedA (dcOffset (some r)) (usedA.length + 1)
-  have hb := dcAllocFrom_parity usedB (dcOffset (some (!r))) (usedB.length + 1)
-  unfold dcAlloc at h
-  rw [h] at ha
+theorem dc_ids_disjoint (ra rb : Option Bool) (h : ra.getD true ≠ rb.getD true) (usedA usedB : List Nat) :
+    dcAlloc ra usedA ≠ dcAlloc rb usedB := by
+  intro he
+  have ha := dcAllocFrom_parity usedA (dcOffset ra) (usedA.length + 1)
+  have hb := dcAllocFrom_parity usedB (dcOffset rb) (usedB.length + 1)
+  unfold dcAlloc at he
+  rw [he] at ha
   rw [ha] at hb
-  cases r <;> simp [dcOffset] at hb
+  cases hra : ra.getD true <;> cases hrb : rb.getD true <;> simp_all [dcOffset]
 
-/-- the allocated id is free when the loop gets enough iterations (it does: `used.length + 1`) — stated
-for the common case of an id list without the candidate -/
-theorem dc_alloc_free_when_unused (role : Option Bool) (used : List Nat) (h : dcOffset role ∉ used) :
-    dcAlloc role used = dcOffset role := by
-  simp [dcAlloc, dcAllocFrom, h]
+/-- **Witness (known finding `dc:both-ends-precreate:same-stream-id`)**: the role is `None` until the first
+remote description arrives, and `None` allocates like the client. An answerer that creates a channel before
+`set_remote_description` therefore gets a client-parity id although it becomes the DTLS *server*: both ends
+allocate stream id 0. The full statement "complementary roles ⇒ disjoint ids" is false for channels created
+before negotiation — the state in which applications normally create them. -/
+theorem dc_ids_collide_before_negotiation_witness :
+    dcAlloc none [] = dcAlloc (some true) [] ∧
+    (exchange ⟨.webrtc, none⟩ ⟨.webrtc, none⟩ 1).2.role = some false ∧
+    dcAlloc none [] ≠ dcAlloc (exchange ⟨.webrtc, none⟩ ⟨.webrtc, none⟩ 1).2.role [] := by decide
+
+/-- **dc_alloc_free**: the id `create_data_channel` returns is never one of the ids in use — for every
+role and every set of used ids (the `used.length + 1` iterations of the model's loop always suffice; the
+code's `loop` is unbounded, its `u16` overflow beyond 32768 live channels of one parity is outside the model). -/
+theorem dc_alloc_free (role : Option Bool) (used : List Nat) : dcAlloc role used ∉ used := by
+  unfold dcAlloc
+  exact dcAllocFrom_free used _ _ (by have := usedFrom_le_length used (dcOffset role); omega)
 
 /-! ### use_srtp profile -/
 
@@ -169,14 +181,6 @@ theorem profile_rustrtc_pair :
 
 /-! ### SRTP keys -/
 
-/-- **srtp_keys_cross**: for every profile id (known, unknown or absent) and *every* keying-material
-byte string, the client's transmit key/salt are the server's receive key/salt and vice versa. -/
-theorem srtp_keys_cross (profileOpt : Option Nat) (mat : List UInt8) :
-    let c := splitKeys (profileOfId profileOpt) true mat
-    let s := splitKeys (profileOfId profileOpt) false mat
-    c.txKey = s.rxKey ∧ c.txSalt = s.rxSalt ∧ s.txKey = c.rxKey ∧ s.txSalt = c.rxSalt := by
-  simp [splitKeys]
-
 /-- with material of the exported length the four parts have exactly the profile's key / salt length -/
 theorem srtp_key_lengths (profileOpt : Option Nat) (isClient : Bool) (mat : List UInt8)
     (h : matOk (profileOfId profileOpt) mat) :
@@ -196,24 +200,37 @@ theorem srtp_keys_need_complementary_roles (r : Bool) :
   refine ⟨List.replicate 16 1 ++ List.replicate 44 2, by decide, ?_⟩
   cases r <;> decide
 
-/-- **negotiated_keys_cross**: composition for a rustrtc pair — after the exchange of
-`roles_complementary` and the profile agreement of `profile_agreed`, with the DTLS exporter (a parameter:
-both ends of one DTLS session export the same bytes) the offerer's tx keys are the answerer's rx keys and
-vice versa, for every exporter function. -/
-theorem negotiated_keys_cross (n : Nat) (hn : 0 < n) (exporter : Nat → List UInt8) (l : List Nat)
-    (hne : l ≠ []) (hl : ∀ x ∈ l, x < 65536) :
+/-- what the DTLS layer owes the key derivation and this model does **not** prove: both ends of one DTLS
+session export the same keying material (RFC 5705 exporter over the shared master secret). The harness
+checks it per connected pair; here it is a named hypothesis. -/
+structure SameSession (expO expA : Nat → List UInt8) : Prop where
+  same : ∀ n, expO n = expA n
+
+/-- **negotiated_keys_cross**: composition for a rustrtc pair, through every modelled step — the offer/answer
+exchange fixes the roles (`roles_complementary`), the server parses the client's use_srtp list *from the
+extension bytes* and selects, the client parses the selection back (`profile_agreed`), both run `setup_srtp`
+on their own exporter output: under `SameSession` the two ends install the same profile and crossed
+key/salt pairs — for every client profile list of 16-bit ids and every exporter. (The split itself is
+`splitKeys`; that it is the code's split is the `srtp` correspondence stream.) -/
+theorem negotiated_keys_cross (n : Nat) (hn : 0 < n) (expO expA : Nat → List UInt8) (hs : SameSession expO expA)
+    (cl : List Nat) (hne : cl ≠ []) (hl : ∀ x ∈ cl, x < 65536) (hlen : 2 * cl.length < 65536) :
     let eps := exchange ⟨.webrtc, none⟩ ⟨.webrtc, none⟩ n
+    let l := serverParseProfiles (clientUseSrtpExt cl)
     ∃ ro ra sel, eps.1.role = some ro ∧ eps.2.role = some ra ∧ serverSelect l = some sel ∧
-      let o := setupSrtp (clientParseSelected (serverUseSrtpExt sel)) ro exporter
-      let a := setupSrtp (serverSelect l) ra exporter
+      let o := setupSrtp (clientParseSelected (serverUseSrtpExt sel)) ro expO
+      let a := setupSrtp (serverSelect l) ra expA
       o.1 = a.1 ∧ o.2.txKey = a.2.rxKey ∧ o.2.txSalt = a.2.rxSalt ∧
       a.2.txKey = o.2.rxKey ∧ a.2.txSalt = o.2.rxSalt := by
-  obtain ⟨sel, hsel, _, hp, hprof⟩ := profile_agreed l hne hl
+  simp only [server_parses_client_list cl hl hlen]
+  obtain ⟨sel, hsel, _, hp, hprof⟩ := profile_agreed cl hne hl
   refine ⟨true, false, sel, ?_, ?_, hsel, ?_⟩
   · simp [exchange_fresh n hn]
   · simp [exchange_fresh n hn]
-  · simp only [setupSrtp, hp, hsel]
+  · simp only [setupSrtp, hp, hsel, hs.same]
     simp [splitKeys]
+
+example : SameSession (fun n => List.replicate n 7) (fun n => List.replicate n 7) := ⟨fun _ => rfl⟩
+example : clientProfiles ≠ [] ∧ (∀ x ∈ clientProfiles, x < 65536) ∧ 2 * clientProfiles.length < 65536 := by decide
 
 /-! ### SDES (Srtp mode) -/
 
@@ -258,16 +275,39 @@ theorem sdes_rustrtc_pair (ka kb : List UInt8) (ha : ka.length = sdesGeneratedLe
 
 /-! ### transport plan of the direct modes -/
 
-/-- **mux_agreed**: two ends with the same rtcp-mux policy and compatibility mode agree on multiplexing
-(the answer carries `a=rtcp-mux` iff the offer does), and each end binds an RTCP socket exactly when
-RTCP is not multiplexed. -/
-theorem mux_agreed (muxRequire legacySip : Bool) :
+/-- **mux_agreed**, for independent policies and compatibility modes of the two ends
+(`(muxO, legacyO)` offerer, `(muxA, legacyA)` answerer): the answer carries `a=rtcp-mux` only if the offer
+does (the `retain`), it does iff additionally the answerer's own policy puts it there, the offerer binds an
+RTCP socket exactly when it does not offer mux, and the answerer binds one exactly when the *offer* had no
+mux (`needs_rtcp`). -/
+theorem mux_agreed (muxO legacyO muxA legacyA : Bool) :
+    let offerMux := sectionHasMux muxO legacyO .offer false
+    let answerMux := sectionHasMux muxA legacyA .answer offerMux
+    (answerMux = true → offerMux = true) ∧
+    (answerMux = (localOffersMux muxA legacyA && offerMux)) ∧
+    needsRtcpSocket muxO legacyO .offer false = !offerMux ∧
+    needsRtcpSocket muxA legacyA .answer offerMux = !offerMux := by
+  cases muxO <;> cases legacyO <;> cases muxA <;> cases legacyA <;> decide
+
+/-- same policy and compatibility mode on both ends (the lattice's points): both agree on multiplexing and
+each end has an RTCP socket exactly when RTCP is not multiplexed -/
+theorem mux_agreed_same_policy (muxRequire legacySip : Bool) :
     let offerMux := sectionHasMux muxRequire legacySip .offer false
     let answerMux := sectionHasMux muxRequire legacySip .answer offerMux
     answerMux = offerMux ∧
     needsRtcpSocket muxRequire legacySip .offer false = !offerMux ∧
     needsRtcpSocket muxRequire legacySip .answer offerMux = !answerMux := by
   cases muxRequire <;> cases legacySip <;> decide
+
+/-- **Witness (known finding `mux:rtp-mixed-policy:…`)**: "each end has an RTCP socket exactly when RTCP is
+not multiplexed" is false for mixed policies: a `Require` offerer facing a `Negotiate` (or LegacySip)
+answerer offers mux, the answer drops it, and *neither* end has bound an RTCP socket — the answerer because
+the offer had mux, the offerer because it offered mux: RTCP has no port to go to. -/
+theorem mux_mixed_policy_no_rtcp_socket_witness :
+    let offerMux := sectionHasMux true false .offer false
+    let answerMux := sectionHasMux false false .answer offerMux
+    answerMux = false ∧ needsRtcpSocket true false .offer false = false ∧
+    needsRtcpSocket false false .answer offerMux = false := by decide
 
 /-- **plan_rtp_delivers**: in Rtp mode, bundled or not, every media section's packets are sent to a
 remote socket that has a receiver, and it is the socket that section's receiver listens on. Any number of
